@@ -24,7 +24,7 @@ package cfedistributor
 //@   ensures forall d: str :: {$supply[d]} $supply[d] <= old($supply[d])
 //@   prop C03 C14 C18 C01 C10
 //@ loop BeginBlocker#1
-//@   invariant 0 <= \i && \i <= len(subDistributors)
+//@   invariant 0 <= \i && \i <= len(subDistributors) && freshSlice(states)
 //@   invariant off(states) == 0 && statesHaveAccounts(states) && remainsNonNeg(states) && payoutOK(states)
 //@   invariant forall d: str :: {$bal[MAIN()][d]} unbooked(states, d) >= 0 && $bal[MAIN()][d] >= 0
 //@   invariant existingAccountsUntouched() && $supply == old($supply) && $stLogN == old($stLogN) && $stLogRem == old($stLogRem)
